@@ -672,6 +672,20 @@ func Check12(c *Case, env *Env) []verdict {
 			return []verdict{{sig: fmt.Sprintf("decode-not-repeatable:%s:%s", val.DT(e.tp.GetDataType()), tensorEnc(e.tp)),
 				what: fmt.Sprintf("initializer %q decoded twice from the same TensorProto: first %s %s, then %s %s", name, o1.kind, val.Snap(t1), o2.kind, val.Snap(t2))}}
 		}
+		// An EMPTY tensor (a zero extent, no payload, supported element type) is not open to interpretation in one
+		// respect: if it is loaded at all, it has its declared element type, its declared shape and no elements.
+		// (gorgonia cannot hold such a tensor, so the pinned tree refuses; a tree that loads it as [1]{0} does not.)
+		if strings.HasPrefix(e.why, "zero extent (empty") && o1.kind == "ok" {
+			got := val.Snap(t1)
+			want := &val.V{DT: val.DT(e.tp.GetDataType())}
+			for _, d := range e.tp.GetDims() {
+				want.Shape = append(want.Shape, int(d))
+			}
+			if got == nil || got.Bad != "" || got.DT != want.DT || fmt.Sprint(got.Shape) != fmt.Sprint(want.Shape) || len(got.Bits) != 0 {
+				return []verdict{{sig: fmt.Sprintf("empty-tensor-misloaded:%s", want.DT),
+					what: fmt.Sprintf("initializer %q declares an empty %s tensor of shape %v and was decoded as %s", name, want.DT, want.Shape, got)}}
+			}
+		}
 		if st != nil {
 			st.Probe("unspecified_decode_repeatable")
 		}
